@@ -470,3 +470,13 @@ func trailingWS(b []byte) int {
 
 	return n
 }
+
+// buildGenericUnopened returns the default prompt pattern of a freshly constructed channel.
+func buildGenericUnopened() (*regexp.Regexp, error) {
+	d, err := generic.NewDriver("sim", options.WithCustomTransport(simdev.NewPipe(nil, 1)))
+	if err != nil {
+		return nil, err
+	}
+
+	return d.Channel.PromptPattern, nil
+}
